@@ -926,7 +926,31 @@ theorem okH_busy {w : World} {hh : Nat} {e : CHE} {s : Store} (hin : okH w hh = 
   unfold okH at hin; rw [hl] at hin; simp only [Bool.and_eq_true, Bool.not_eq_true'] at hin; exact hin.1
 theorem okL_busy {w : World} {l : Nat} {e : LHE} {s : Store} (hin : okL w l = true) (hl : w.liveL l = some (e, s)) :
     w.cifBusy e.cif = false ∧ e.h.validB s.db = true := by
-  unfold okL at hin; rw [hl] at hin; simp only [Bool.and_eq_true, Bool.not_eq_true'] at hin; exact hin
+  unfold okL LH.okB at hin; rw [hl] at hin; simp only [Bool.and_eq_true, Bool.not_eq_true'] at hin; exact ⟨hin.1, hin.2.1⟩
+
+/-- (review rA, A.9) cif_container_destroy "removes the associated container and all its contents": a container whose row outlives
+    the destroy of an ancestor (the store keeps the `container` rows of nested frames; only their save_frame rows cascade) is NOT part
+    of the CIF (`Db.inCif`: the row exists and climbs through save_frame rows with existing parents to a data block) — and every call
+    through a container handle on it, or through a loop handle on one of its loops, is OUT of contract: `C04_refines` says nothing
+    about reads or writes inside a destroyed container (cif.h: such handles are invalid, their use is undefined). -/
+theorem C04_handle_outside_cif (w : World) (hh : Nat) (e : CHE) (s : Store) (hl : w.liveH hh = some (e, s))
+    (hno : s.db.inCif e.h.id = false) (n : Option Name) (v : Option V) (cat : Option Str) (names : List Name) :
+    inContract w (.getVal hh n) = false ∧ inContract w (.setVal hh n v) = false ∧ inContract w (.rmItem hh n) = false ∧
+    inContract w (.mkLoop hh cat names) = false ∧ inContract w (.mkFrame hh n) = false ∧ inContract w (.getFrame hh n) = false ∧
+    inContract w (.frames hh) = false ∧ inContract w (.loops hh) = false ∧ inContract w (.catLoop hh cat) = false ∧
+    inContract w (.itemLoop hh n) = false ∧ inContract w (.prune hh) = false ∧ inContract w (.cdestroy hh) = false := by
+  have h0 : okH w hh = false := by unfold okH CH.okB; rw [hl]; simp [hno]
+  exact ⟨h0, h0, h0, h0, h0, h0, h0, h0, h0, h0, h0, h0⟩
+
+theorem C04_loop_handle_outside_cif (w : World) (l : Nat) (e : LHE) (s : Store) (hl : w.liveL l = some (e, s))
+    (hno : s.db.inCif e.h.cid = false) (hb : w.cifBusy e.cif = false) (n : Option Name) (v : Option V) (cat : Option Str) (p : List (Str × V)) :
+    inContract w (.addPkt l p) = false ∧ inContract w (.addItem l n v) = false ∧ inContract w (.setCat l cat) = false ∧
+    inContract w (.names l) = false ∧ inContract w (.ldestroy l) = false ∧ inContract w (.itOpen l) = false := by
+  have h0 : okL w l = false := by unfold okL LH.okB; rw [hl]; simp [hno]
+  have h1 : okLOpen w l = false := by unfold okLOpen LH.okB; rw [hl]; simp [hno, hb]
+  refine ⟨?_, h0, h0, h0, h0, h1⟩
+  show (okL w l && keysDistinct p) = false
+  rw [h0]; rfl
 
 /-- Every op that keeps to the documented contract (`inContract`, Model/StoreContract: valid handles; while an iterator is open on a
     CIF only that iterator's calls work on it) keeps `WOk`: every managed CIF — content and every snapshot a rollback could restore —
@@ -1078,7 +1102,9 @@ theorem C04_wok_step (w : World) (op : Op) (h : WOk w) (hin : inContract w op = 
     · rename_i e s hl
       have hin' : (w.cifBusy e.cif || e.h.validB s.db) = true := by
         have : okLOpen w l = true := hin
-        unfold okLOpen at this; rw [hl] at this; exact this
+        unfold okLOpen LH.okB at this; rw [hl] at this
+        simp only [Bool.or_eq_true, Bool.and_eq_true] at this ⊢
+        exact this.imp id (fun h => h.1)
       cases hb : w.cifBusy e.cif with
       | true => exact (h.itOpenBusy l e s hl hb rfl rfl).1
       | false =>
@@ -1220,7 +1246,7 @@ theorem C04_second_get_packets_refused (w : World) (h : WOk w) (l : Nat) (e : LH
     identities (`absW`, Spec/StoreSpec: every managed CIF as container tree + loops of (category, items, packets); every open packet
     iterator as the abstract iterator `AIter`: its loop, the number of packets passed, "has a current packet", the CIF as it was at
     creation) exactly what `specStep` says, and returns the same result — with no further hypothesis, for EVERY op of the API
-    (`Op.covered` is `true` everywhere: `Op.covered_all`; the hypothesis of earlier versions is gone): cif_create, cif_destroy,
+    (the `covered` hypothesis of earlier versions is gone, `Op.covered` is deleted): cif_create, cif_destroy,
     create_block, get_block, get_all_blocks, create_frame, get_frame, get_all_frames, get_code, is-block, container_destroy, prune,
     create_loop, get_category_loop, get_item_loop, loop_get_category, loop_set_category, loop_get_names, loop_add_item,
     loop_add_packet, loop_destroy, get_value, remove_item, get_all_loops (with the names of each loop), set_value (existing item: the
